@@ -2,6 +2,8 @@ package main
 
 import (
 	"bytes"
+	"os"
+	"strings"
 	"fmt"
 	"math/rand"
 	"sync"
@@ -25,7 +27,7 @@ func runC15(c *Check, rng *rand.Rand) {
 	c.Assumptions = []string{"bounded-progress restatement of 'never waits forever': judged in event-loop rounds after the fault became visible to the proxy, not in wall-clock time"}
 	lanes := 4
 	perLane := 5
-	env, err := NewEnv(EnvOpt{Masters: lanes*perLane + 1, Extra: 1})
+	env, err := NewEnv(EnvOpt{Masters: lanes*perLane + 1, Extra: 1, Cfg: ProxyCfg{LogLevel: os.Getenv("C15_LOGLEVEL")}})
 	must(err, "start env")
 	defer env.Close()
 	script := NewScript()
@@ -48,6 +50,9 @@ func runC15(c *Check, rng *rand.Rand) {
 			plen := 1 + rng.Intn(12)
 			cases = append(cases, c15case{faults[rng.Intn(len(faults))], plen, rng.Intn(plen), rng.Intn(2) == 0, rng.Intn(2) == 0})
 		}
+	}
+	if os.Getenv("C15_ONLY_REMOVED") != "" {
+		cases = nil
 	}
 	ch := make(chan c15case, len(cases))
 	for _, cs := range cases {
@@ -356,24 +361,22 @@ func c15removed(c *Check, rng *rand.Rand, env *Env, script *Script) {
 		nt.Install(env.Cl)
 		// adopted when a write for the victim's slot reaches `other`
 		adopted := false
-		pc, _ := env.Dial()
-		got := 0
 		for dl := time.Now().Add(12 * time.Second); time.Now().Before(dl) && !adopted; {
+			// a fresh connection per probe: before adoption the probe is routed to the
+			// frozen node and stays unanswered
+			pc, err := env.Dial()
+			must(err, "dial")
 			tok := newToken("ad")
 			before := env.Cl.LogLen()
 			pc.Send(Req("SET", Key(victim.Slots[0][0], tok), "v"))
-			got++
-			if !pc.WaitReplies(got, 3*time.Second) {
-				break
-			}
+			pc.WaitReplies(1, 400*time.Millisecond)
 			for _, r := range env.Cl.Log()[before:] {
-				if r.Node == other.Node && r.Cmd == "set" {
+				if r.Node == other.Node && r.Cmd == "set" && strings.Contains(r.Arg(1), tok) {
 					adopted = true
 				}
 			}
-			time.Sleep(200 * time.Millisecond)
+			pc.Close()
 		}
-		pc.Close()
 		c.Eval(1)
 		c.Distinct(fmt.Sprintf("removed-from-topology/%d", rep))
 		if !adopted {
